@@ -295,6 +295,15 @@ def run_engines(c, rng):
             if p['power'] / 9810.0 * (1e-5 / qa ** 2 + 1e-3 / qa) > 0.5:
                 c.inconclusive('power_pump_operating_point_ill_conditioned')
                 return
+    # ... a tank that sits at a level limit cannot keep filling (draining): when a user control re-opens the link that the tank-full
+    # rule has just closed, EPANET reports the inflow and clips the level - a state that loses water
+    for tk_ in spec['tanks']:
+        Le_, De_ = re_.node['pressure'][tk_['name']].values, re_.node['demand'][tk_['name']].values
+        for k in range(len(times) - 1):
+            if (Le_[k] >= tk_['max_level'] - 1e-3 and Le_[k + 1] >= tk_['max_level'] - 1e-3 and De_[k] > 1e-4) or \
+                    (Le_[k] <= tk_['min_level'] + 1e-3 and Le_[k + 1] <= tk_['min_level'] + 1e-3 and De_[k] < -1e-4):
+                c.inconclusive('epanet_tank_at_limit_keeps_exchanging')
+                return
     # ... an active FCV throttles: it never adds head.  EPANET has been seen to report an FCV Active at a setting above the flow the
     # network can deliver, with the head RISING across the valve (a pump in disguise) right after a rule changed the setting
     for v_ in spec['valves']:
@@ -447,7 +456,14 @@ def run_engines(c, rng):
                 commanded_closed = cs['value'] == 'CLOSED'
                 if not holds and link_closed(rw, ln, k0) == commanded_closed and link_closed(re_, ln, k0) != commanded_closed:
                     kind = 'status_diverges_pressure_control_fired_on_trial_solution'
-        if any(v['name'] == ln and valve_forced_open(spec, rw, re_, v, k0) and side_without_source(topo, links, rw, v, k0) for v in spec['valves']):
+        # mechanism test (known finding): a pattern change strictly inside a hydraulic step before the divergence - EPANET re-solves
+        # there, WNTR does not, so tank levels (and the level controls that read them) part company
+        pts_, ps_, hyd_ = o['pattern_timestep'], o['pattern_start'], o['hydraulic_timestep']
+        if (pts_ % hyd_ != 0 or ps_ % hyd_ != 0) and k0 > 0 and (spec['tanks'] or any(cs.get('source', '').startswith('T') for cs in spec['controls'])):
+            changes = [m_ * pts_ - ps_ for m_ in range(0, int((times[k0] + ps_) // pts_) + 2)]
+            if any(0 < t_ <= times[k0] and t_ % hyd_ != 0 for t_ in changes):
+                kind = 'engines_differ_pattern_change_inside_hydraulic_step'
+        if any(valve_forced_open(spec, rw, re_, v, k) and side_without_source(topo, links, rw, v, k) for v in spec['valves'] for k in range(k0 + 1)):
             kind = 'engines_differ_valve_forced_open_without_source'
         c.violate(kind, 'link %s: WNTR and EPANET report different open/closed states at report steps %s (t = %s s): WNTR %s, EPANET %s' % (
             ln, r_[:6], [times[k] for k in r_[:6]], [int(rw.link['status'][ln].values[k]) for k in r_[:6]],
@@ -479,7 +495,7 @@ def run_engines(c, rng):
     # differs at ONE report step (equal before and after) is such a near tie; a longer difference is left to the value comparison.
     for v_ in spec['valves']:
         sw_, se_ = rw.link['setting'][v_['name']].values, re_.link['setting'][v_['name']].values
-        act_ = [int(re_.link['status'][v_['name']].values[k]) == 2 and int(rw.link['status'][v_['name']].values[k]) == 2 for k in range(len(times))]
+        act_ = [float(se_[k]) != 0.0 and float(sw_[k]) != 0.0 for k in range(len(times))]      # EPANET reports 0 for a valve at a fixed status
         dif_ = [act_[k] and abs(float(sw_[k]) - float(se_[k])) > 1e-4 * max(abs(float(sw_[k])), abs(float(se_[k])), 1e-9) for k in range(len(times))]
         for k in range(len(times)):
             if dif_[k] and not (k > 0 and dif_[k - 1]) and not (k + 1 < len(times) and dif_[k + 1]):
@@ -520,12 +536,30 @@ def run_engines(c, rng):
                 lim = tol_abs + tol_rel * max(abs(float(re_.node['head'][n].values[i])), hspread) + tank_slack
                 if d > lim and (worst is None or d / lim > worst[0]):
                     worst = (d / lim, key, n, t, a, b)
+        def flat_allow(ln_):
+            # flow of a hydraulically flat link is only as well determined as the heads at its ends (see the link comparison below)
+            qa_, qb_ = float(rw.link['flowrate'][ln_].values[i]), float(re_.link['flowrate'][ln_].values[i])
+            if ln_ in pipe_law:
+                k_, mk_, l_ = pipe_law[ln_]
+                slope_ = 1.852 * k_ * min(abs(qa_), abs(qb_)) ** 0.852 + 2 * mk_ * min(abs(qa_), abs(qb_)) + 1e-5 * math.sqrt(k_)
+            elif ln_ in open_valve_loss and int(rw.link['status'][ln_].values[i]) == 1 and int(re_.link['status'][ln_].values[i]) == 1:
+                mk_, l_ = open_valve_loss[ln_]
+                slope_ = 2 * mk_ * min(abs(qa_), abs(qb_)) + 1e-9
+            else:
+                return 0.0
+            dH_ = abs(float(rw.node['head'][l_['start']].values[i]) - float(re_.node['head'][l_['start']].values[i])) + \
+                abs(float(rw.node['head'][l_['end']].values[i]) - float(re_.node['head'][l_['end']].values[i])) + 2e-6
+            return dH_ / slope_
         for n in nodes:
             a, b = float(rw.node['demand'][n].values[i]), float(re_.node['demand'][n].values[i])
             c.count('engine_values_compared')
             d = abs(a - b)
-            if d > 1e-5 + 1e-3 * qmax + flow_slack and (worst is None or d / (1e-5 + 1e-3 * qmax + flow_slack) > worst[0]):
-                worst = (d / (1e-5 + 1e-3 * qmax + flow_slack), 'demand', n, t, a, b)
+            lim_d = 1e-5 + 1e-3 * qmax + flow_slack
+            if d > lim_d and n not in junc_names:
+                # the demand of a tank or reservoir is the sum of its link flows: it inherits their indeterminacy
+                lim_d += sum(flat_allow(l2) for l2 in links if n in end_nodes[l2])
+            if d > lim_d and (worst is None or d / lim_d > worst[0]):
+                worst = (d / lim_d, 'demand', n, t, a, b)
         for ln in links:
             a, b = float(rw.link['flowrate'][ln].values[i]), float(re_.link['flowrate'][ln].values[i])
             if end_nodes[ln][0] not in conn and end_nodes[ln][1] not in conn:
